@@ -4,6 +4,7 @@ import (
 	"context"
 	"errors"
 	"fmt"
+	"github.com/thushan/olla/internal/adapter/proxy/core"
 	"net/http"
 	"slices"
 	"time"
@@ -345,6 +346,11 @@ func (a *Application) handleEndpointError(w http.ResponseWriter, pr *proxyReques
 // content-type check prevents double-writing response after partial stream
 // (learned this the hard way when users got html error messages appended to their json)
 func (a *Application) handleProxyError(w http.ResponseWriter, err error) {
+	// a backend need not declare a content type: when the engine says its response had already
+	// started, anything written now would end up behind the bytes the client already has
+	if core.IsResponseStarted(err) {
+		return
+	}
 	if w.Header().Get(constants.HeaderContentType) == "" {
 		// the body grew past max_body_size while it was being read (undeclared length)
 		var tooLarge *http.MaxBytesError
